@@ -319,7 +319,8 @@ def stats(case):
         t = case['table']
         return {'kind': 'formal', 'shape': '%dx%d' % (len(t), len(t[0])), 'backend': case['backend'],
                 'by': 'name' if case['named'] else 'index/%d' % case.get('call', 0),
-                'base_gen': 'none' if case['base_gen'] is None else len(case['base_gen']),
+                'base_gen': 'none' if case['base_gen'] is None else
+                        ('repeats' if len(set(case['base_gen'])) < len(case['base_gen']) else len(case['base_gen'])),
                 'base_objs': case.get('bo_kind', ''), 'intent': 'closed' if case.get('closed') else 'other'}
     if case['kind'] == 'mv':
         return {'kind': 'mv', 'mv_shape': '%dx%d' % (case['n'], len(case['cols'])),
@@ -341,6 +342,9 @@ def _formal(rng, t, intent, bg, bo, bo_kind, closed, named=None, backend=None, c
          'onames': list(range(h)), 'anames': list(range(w)), 'intent': list(intent),
          'base_gen': None if bg is None else list(bg), 'base_objs': None if bo is None else list(bo),
          'bo_kind': bo_kind, 'closed': closed, 'tkind': tkind}
+    if intent and tkind != 'exhaustive' and rng.random() < 0.12:
+        c['intent'] = list(intent) + [rng.choice(list(intent))]     # an intent listed with a repeat
+        intent = c['intent']
     if named:
         on = rng.sample(range(50), h)
         an = rng.sample(range(50), w)
@@ -374,6 +378,13 @@ def formal_cases(rng, t, tkind, per_table):
             bgs.append(sorted(rng.sample(range(w), 2)))
         if len(B) >= 2:
             bgs.append(sorted(rng.sample(list(B), 2)))
+        # a base generator listed with repeats ([a, b] + [b, c]) denotes the same set
+        if B:
+            rep = [rng.choice(list(B)) for _ in range(rng.randint(1, 2))]
+            rep = rep + [rng.choice(rep)] + ([rng.choice(list(B))] if rng.random() < 0.5 else [])
+            if rng.random() < 0.5:
+                rng.shuffle(rep)
+            bgs.append(rep)
         bos = [(allobjs, 'all'), (sorted(rng.sample(allobjs, rng.randint(0, h))), 'random')]
         if rng.random() < 0.25:
             bos.append((None, 'none'))
